@@ -452,7 +452,8 @@ func newAZSelector(clientAZ string, startIdx int) func(uint16, []NodeInfo) int {
 		}
 
 		// Round-Robin on ALL available nodes
-		if count := uint32(len(nodes) - startIdx); count > 0 {
+		if len(nodes) > startIdx {
+			count := uint32(len(nodes) - startIdx)
 			c := counter.Add(1)
 			return int(c%count) + startIdx
 		}
